@@ -113,6 +113,7 @@ class Operator:
             if 'standalone' not in kw and 'peering_name' not in kw:
                 kw['standalone'] = True
             self.task = self.loop.create_task(kopf.operator(**kw), name=f'operator {self.name}')
+            self.task.add_done_callback(lambda _t: None if self.killed else sim.rec('op.return', loop=self.name, outcome=self.outcome()))
         finally:
             self.loop.leave()
         sim.rec('op.start', loop=self.name)
@@ -163,7 +164,6 @@ class Operator:
             self.stop()
             self.sim.world.run_until(self.sim.world.now + grace, stop=lambda: self.done)
         out = self.outcome()
-        self.sim.rec('op.return', loop=self.name, outcome=out)
         if self.loop in self.sim.world.loops:
             # let leftovers (if any) unwind, then drop the loop
             for _ in range(100):
